@@ -333,6 +333,9 @@ def canon(t):
             return ("const", False)      # the properties speak about paths given as strings: a str is not os.PathLike
         if k == "call" and x[1] == ("global", "getattr") and len(x[2]) == 3 and x[2][1] == ("const", "__fspath__") and x[2][2][0] == "const":
             return x[2][2]
+        if k == "call" and x[1] == ("global", "dict") and len(x[2]) == 1 and not x[3] and x[2][0][0] in ("list", "tuple") \
+                and x[2][0][1] and all(e[0] == "tuple" and len(e[1]) == 2 for e in x[2][0][1]):
+            return ("dict", tuple((e[1][0], e[1][1]) for e in x[2][0][1]))      # dict([(k, v), ...]) written out
         if k == "cmp" and len(x[1]) == 1 and x[1][0] in ("is", "is not") and x[2][0][0] == "const" and x[2][1][0] == "const" \
                 and (x[2][0][1] is None or x[2][1][1] is None):
             same = x[2][0][1] is None and x[2][1][1] is None
@@ -341,6 +344,8 @@ def canon(t):
             other = [y for y in x[2] if y != ("const", None)]
             if other and other[0][0] == "global" and "." in other[0][1] and other[0][1].split(".")[0] in _STDLIB_ROOTS:
                 return ("const", x[1][0] == "is not")     # a standard-library attribute is not None
+            if other and other[0][0] == "global" and other[0][1] in ("int", "str", "bool", "float", "list", "dict", "set", "tuple"):
+                return ("const", x[1][0] == "is not")     # nor is a builtin type
         if k in ("ifexp", "gate") and x[1][0] == "call" and x[1][1] == ("global", "hasattr") and len(x[1][2]) == 2 \
                 and x[1][2][1] == ("const", "__fspath__") and x[3] == x[1][2][0] \
                 and x[2] == ("call", ("attr", x[3], "__fspath__"), (), ()):
@@ -898,6 +903,30 @@ class Extractor(object):
             # of comprehension variables does not matter; tuple targets become components of the element
             b = dict(bound or {})
             gens = []
+            g0 = node.generators[0]
+            if len(node.generators) == 1 and not g0.ifs and isinstance(g0.iter, ast.Name) and g0.iter.id not in env \
+                    and g0.iter.id not in self.local_names and g0.iter.id not in b:
+                rows = self._table_rows(g0.iter.id)
+                if rows is not None:
+                    # a comprehension over a module-level table introduced after the pinned tree: its elements written out
+                    out = []
+                    for row in rows:
+                        rb = dict(b)
+
+                        def bind_row(t, v):
+                            if isinstance(t, ast.Name):
+                                rb[t.id] = v
+                            elif isinstance(t, (ast.Tuple, ast.List)):
+                                for i, e in enumerate(t.elts):
+                                    bind_row(e, v[1][i] if v[0] == "tuple" and len(v[1]) == len(t.elts) else ("idx", v, i))
+                        bind_row(g0.target, row)
+                        if isinstance(node, ast.DictComp):
+                            out.append((self.expr(node.key, env, guards, loops, rb), self.expr(node.value, env, guards, loops, rb)))
+                        else:
+                            out.append(self.expr(node.elt, env, guards, loops, rb))
+                    if isinstance(node, ast.DictComp):
+                        return ("dict", tuple(out))
+                    return ("set" if isinstance(node, ast.SetComp) else "list", tuple(out))
             for g in node.generators:
                 it = self.expr(g.iter, env, guards, loops, b)
                 kind, it, d = dict_iter(it)
@@ -1054,16 +1083,7 @@ class Extractor(object):
                 and self.const_resolver is not None:
             # a module-level table introduced after the pinned tree (to drive a loop): its rows written out.  The resolver
             # answers only for such tables
-            v = self.const_resolver(node.id)
-
-            def simple(x):
-                return isinstance(x, (str, int, float, bool, type(None))) or (isinstance(x, tuple) and all(simple(y) for y in x))
-
-            def term(x):
-                return ("tuple", tuple(term(y) for y in x)) if isinstance(x, tuple) else ("const", x)
-            if isinstance(v, (list, tuple)) and 0 < len(v) <= 12 and all(simple(x) for x in v):
-                return [term(x) for x in v]
-            return None
+            return self._table_rows(node.id)
         if lit is None:
             return None
         t = self.expr(lit, env, guards, loops)
@@ -1077,6 +1097,27 @@ class Extractor(object):
         if any(r[0] == "starred" for r in rows) or len(rows) > 12 or not rows:
             return None
         return rows
+
+    def _table_rows(self, name):
+        """the rows of a module-level table introduced after the pinned tree, as terms (or None): strings, numbers, None, type
+        objects and tuples of them, at most 16 rows"""
+        if self.const_resolver is None:
+            return None
+        v = self.const_resolver(name)
+
+        def simple(x):
+            return isinstance(x, (str, int, float, bool, type(None))) or type(x).__name__ == "TypeMarker" \
+                or (isinstance(x, tuple) and all(simple(y) for y in x))
+
+        def term(x):
+            if isinstance(x, tuple):
+                return ("tuple", tuple(term(y) for y in x))
+            if type(x).__name__ == "TypeMarker":
+                return ("global", x.name)
+            return ("const", x)
+        if isinstance(v, (list, tuple)) and 0 < len(v) <= 16 and all(simple(x) for x in v):
+            return [term(x) for x in v]
+        return None
 
     @staticmethod
     def _jumps_of(stmts):
